@@ -239,6 +239,26 @@ impl SimNet {
         true
     }
 
+    /// Reset the `k`-th (mod live) live connection between two hosts. Returns whether something was hit.
+    pub fn reset_between(&self, a: IpAddr, b: IpAddr, k: usize) -> bool {
+        let live: Vec<_> = self.live_conns().into_iter().filter(|c| {
+            let c = c.lock().unwrap();
+            (c.client.ip() == a && c.server.ip() == b) || (c.client.ip() == b && c.server.ip() == a)
+        }).collect();
+        if live.is_empty() {
+            return false;
+        }
+        if live.len() > 1 {
+            self.handle.probe("reset-one-of-two-connections");
+        }
+        let c = &live[k % live.len()];
+        let mut c = c.lock().unwrap();
+        self.handle.event(format!("net: reset conn{} ({} live between the two hosts)", c.id, live.len()));
+        self.handle.fault("reset");
+        c.do_reset();
+        true
+    }
+
     /// Reset connection by id.
     pub fn reset_conn(&self, id: usize) -> bool {
         let c = self.st.lock().unwrap().conns.get(id).cloned();
